@@ -5,7 +5,7 @@ HARNESS = "harness/c04_roundtrip.py"
 MODE = "src"
 EXPLANATION = ("Write-op kinds are enumerated (12 kinds), all values are symbolic: integers over their full range, strings over all code points 0..0x10FFFF of the stated length, "
                "raw bytes arbitrary. Every single op, every ordered pair (and triple in the thorough tier) is written with the real EoWriter and read back with the real EoReader.")
-BOUNDS = {"quick": "all single ops and ordered pairs of the 12 kinds (trailing kinds last); strings/bytes of length 0..3; padding room 0..2",
+BOUNDS = {"quick": "all single ops and ordered pairs of the 12 kinds (trailing kinds last); strings/bytes of length 0..3; padding room 0..2, plus 255/256/300 for padded strings followed by another field",
           "thorough": "singles, pairs and triples; strings/bytes of length 0..5 for singles, 0..3 in pairs, 2 in triples; padding room 0..2"}
 OUTSIDE = "longer sequences (covered compositionally: C09 shows writes are append-only, C05 shows reads start at the current position); longer strings"
 ASSUMPTIONS = ["excluded as in the property: y-diaeresis (image 0xFF) inside padded strings, '~' inside encoded strings"]
@@ -35,6 +35,11 @@ def jobs(tier):
         for L in Ls:
             for extra in ((0, 1, 2) if any("padded" in k for k in kinds) else (0,)):
                 add(kinds, L, extra)
+    # padded strings followed by another field, with padding across the one-byte boundary
+    for k in ("padded_string", "padded_encoded_string"):
+        for extra in (255, 256, 300):
+            add((k, "char"), 1, extra)
+            add((k, "string"), 2, extra)
     for kinds in seqs(2):
         Ls = ((0, 2) if q else (0, 1, 2, 3)) if uses_len(kinds) else (0,)
         for L in Ls:
